@@ -59,3 +59,232 @@ Theorem C06_crash_keeps_durable_log :
     l_commit (ln s' n) = 0%nat /\ l_log (ln s' n) = l_dlog (ln s n) /\ l_dlog (ln s' n) = l_dlog (ln s n).
 Proof. exact crash_falls_back. Qed.
 Print Assumptions C06_crash_keeps_durable_log.
+
+(* ================================================================== *)
+(* NODE LEVEL (M/RaftProofsC06.v): the per-call facts about the node model M/Raft.v /
+   M/RawNode.v that justify the rules of the abstract protocol above.  From here on the
+   names of the model shadow those of P.
+
+   What is proved where.
+   P level (above): over every execution of P/Election.v and P/Log.v with crashes between
+     any two steps - one vote per term ever, promises covered by the durable state, term
+     monotone, acknowledgements only for durable prefixes, a crash loses nothing durable.
+   Node level (below), each for ALL states and inputs of the model (no reachability):
+   1. TERM MONOTONE.  C06n_step_vote_step / C06n_tick_tv: over step and tick the term never
+      decreases; C06n_raft_api_keeps_term_vote: raft_apply_conf_change, on_persist_entries,
+      on_persist_snap, commit_apply, ping, request_snapshot leave term and vote alone
+      (load_state, the only other writer, is internal to Raft::new: clause 5);
+      C06n_exec_tv: every RawNode call of C07's alphabet [op] (step, tick, campaign, propose,
+      propose_conf_change, apply_conf_change, ping, ready, advance, advance_append,
+      advance_append_async, on_persist_ready, advance_apply(_to), report_unreachable,
+      report_snapshot, request_snapshot, transfer_leader, read_index, and the application's
+      storage writes); C06n_trace_term_monotone: along ANY non-panicking sequence of such
+      calls - in particular from rn_new (C06n_trace_from_new) - the term never decreases.
+   2. ONE VOTE PER TERM.  [vote_step m r r'] (C06n_def_vote_step): within the term the vote
+      is kept, or cast for the first time (it was 0) by granting the MsgRequestVote m to its
+      sender; when the term grows the vote is 0 (term adopted from a message, check-quorum
+      step-down ...), or the node's own id (a campaign), or the sender of the MsgRequestVote
+      that carried the new term (adopt and grant in one step).  For every call other than
+      step on a vote request the second alternative is absent ([tv_plain]).
+      C06n_step_vote_kept: the plain per-step form.  C06n_trace_one_vote_per_term: along any
+      trace, a later state of the same term as an earlier one whose vote is non-zero has
+      the same vote.
+   3. GRANTS MATCH THE VOTE.  C06n_grant_matches_vote: the MsgRequestVoteResponse messages
+      in the queue change only by what the vote branch appends; a non-rejecting one answers
+      a MsgRequestVote, is addressed to its sender, which is the node recorded in r_vote
+      after the step, and carries the node's term after the step (= the request's term) and
+      the node's id.  (C03_vote_grant_restricted is the log-side condition of the same
+      grant.)  Together with 2: at most one candidate per term is ever granted a vote by
+      one incarnation.
+   4. HARD STATE HAND-OUT.  C06n_ready_hands_out_hard_state: if the node's (term, vote)
+      differ from rn_prev_hs, rn_ready returns the current hard state, must_sync = true,
+      is_persisted_msg = true (every message of this Ready waits for the persistence
+      report) and pushes a record with hs_changed; term and vote are not touched by ready.
+      C06n_tv_change_no_immediate_msgs / C06n_immediate_msgs_only_leader_settled: the
+      release discipline (C07's theorems, re-pinned: they are C06's persist-before-send
+      clause at node level): a Ready that changes term or vote releases no message before
+      persistence; messages released before persistence come only from a leader whose
+      (term, vote) are the handed-out ones and with no hs-changing Ready outstanding.
+   5. RESTART.  C06n_raft_new_resumes / C06n_rn_new_resumes: a node constructed over a store
+      whose hard state is hs has r_term = hs_term hs and r_vote = hs_vote hs (and prev_hs
+      likewise, role Follower, no outstanding records): a restart resumes exactly the
+      durable term and vote.
+   Still assumed (not a property of the library): the APPLICATION writes the hard state of
+   a Ready to stable storage before it sends that Ready's persisted messages and before it
+   reports the Ready persisted (on_persist_ready / advance), and hands rn_new the store it
+   wrote.  This is the simulator's contract (SimStorage) and what the P-level acceptor
+   checks on recorded runs; with it, 1-5 are the node-level counterparts of P's rules
+   (grant: 2+3; durable image handed out before release: 4; restart from the image: 5). *)
+From RV Require Import Base.IdSet M.Progress M.MemStorage M.Msg M.Raft M.RawNode M.RaftProofs
+  M.RaftProofsC17 M.RaftProofsC07 M.RaftProofsC06.
+
+Theorem C06n_def_vote_step : forall m r r',
+  vote_step m r r' <->
+  r_id r' = r_id r /\ r_term r <= r_term r' /\
+  (r_term r' = r_term r ->
+   r_vote r' = r_vote r \/
+   (r_vote r = INVALID_ID /\ m_type m = MsgRequestVote /\ r_vote r' = m_from m)) /\
+  (r_term r < r_term r' ->
+   r_vote r' = INVALID_ID \/ r_vote r' = r_id r \/
+   (m_type m = MsgRequestVote /\ m_term m = r_term r' /\ r_vote r' = m_from m)).
+Proof. exact def_vote_step. Qed.
+Print Assumptions C06n_def_vote_step.
+
+Theorem C06n_def_tv_plain : forall r r',
+  tv_plain r r' <->
+  r_id r' = r_id r /\ r_term r <= r_term r' /\
+  (r_term r' = r_term r -> r_vote r' = r_vote r) /\
+  (r_term r < r_term r' -> r_vote r' = INVALID_ID \/ r_vote r' = r_id r).
+Proof. exact def_tv_plain. Qed.
+Print Assumptions C06n_def_tv_plain.
+
+(* 1+2: step *)
+Theorem C06n_step_vote_step :
+  forall r m r' c, step r m = Ok (r', c) -> vote_step m r r'.
+Proof. exact step_vote_step. Qed.
+Print Assumptions C06n_step_vote_step.
+
+Theorem C06n_step_term_monotone :
+  forall r m r' c, step r m = Ok (r', c) -> r_term r <= r_term r'.
+Proof. exact step_term_monotone. Qed.
+Print Assumptions C06n_step_term_monotone.
+
+Theorem C06n_step_vote_kept :
+  forall r m r' c, step r m = Ok (r', c) -> r_term r' = r_term r ->
+    r_vote r = INVALID_ID \/ r_vote r' = r_vote r.
+Proof. exact step_vote_kept. Qed.
+Print Assumptions C06n_step_vote_kept.
+
+(* 1+2: tick *)
+Theorem C06n_tick_tv :
+  forall r r' b, tick r = Ok (r', b) -> tv_plain r r'.
+Proof. exact tick_tv_plain. Qed.
+Print Assumptions C06n_tick_tv.
+
+(* 1+2: the rest of the Raft API *)
+Theorem C06n_raft_api_keeps_term_vote :
+  (forall r cc r' ocs, raft_apply_conf_change r cc = Ok (r', ocs) ->
+     r_term r' = r_term r /\ r_vote r' = r_vote r) /\
+  (forall r i t r', on_persist_entries r i t = Ok r' -> r_term r' = r_term r /\ r_vote r' = r_vote r) /\
+  (forall r i r', on_persist_snap r i = Ok r' -> r_term r' = r_term r /\ r_vote r' = r_vote r) /\
+  (forall r a r', commit_apply r a = Ok r' -> r_term r' = r_term r /\ r_vote r' = r_vote r) /\
+  (forall r r', ping r = Ok r' -> r_term r' = r_term r /\ r_vote r' = r_vote r) /\
+  (forall r r' c, request_snapshot r = Ok (r', c) -> r_term r' = r_term r /\ r_vote r' = r_vote r).
+Proof. exact raft_api_keeps_term_vote. Qed.
+Print Assumptions C06n_raft_api_keeps_term_vote.
+
+(* 1+2: every RawNode call ([op] / [exec]: the alphabet of C07) *)
+Theorem C06n_exec_tv :
+  forall n o n' ot, exec n o = Ok (n', ot) ->
+    match o with
+    | OStep m => vote_step m (rn_raft n) (rn_raft n')
+    | _ => tv_plain (rn_raft n) (rn_raft n')
+    end.
+Proof. exact exec_tv. Qed.
+Print Assumptions C06n_exec_tv.
+
+Theorem C06n_rn_step_vote_step :
+  forall n m n' c, rn_step n m = Ok (n', c) -> vote_step m (rn_raft n) (rn_raft n').
+Proof. exact rn_step_vote_step. Qed.
+Print Assumptions C06n_rn_step_vote_step.
+
+Theorem C06n_rn_tick_tv :
+  forall n n' b, rn_tick n = Ok (n', b) -> tv_plain (rn_raft n) (rn_raft n').
+Proof. exact rn_tick_tv. Qed.
+Print Assumptions C06n_rn_tick_tv.
+
+(* traces: [ntrace n n'] = n' is reached from n by some sequence of calls, none panicking
+   (constructors ntrace_nil : ntrace n n; ntrace_cons : exec n o = Ok (n1, ot) ->
+   ntrace n1 n' -> ntrace n n') *)
+Theorem C06n_trace_term_monotone :
+  forall n n', ntrace n n' -> r_term (rn_raft n) <= r_term (rn_raft n').
+Proof. exact ntrace_term_monotone. Qed.
+Print Assumptions C06n_trace_term_monotone.
+
+Theorem C06n_trace_one_vote_per_term :
+  forall n1 n2, ntrace n1 n2 -> r_term (rn_raft n2) = r_term (rn_raft n1) ->
+    r_vote (rn_raft n1) <> INVALID_ID -> r_vote (rn_raft n2) = r_vote (rn_raft n1).
+Proof. exact ntrace_one_vote_per_term. Qed.
+Print Assumptions C06n_trace_one_vote_per_term.
+
+Theorem C06n_trace_from_new :
+  forall c st sa dr n0 n1 n2,
+    rn_new c st sa dr = Ok (inr n0) -> ntrace n0 n1 -> ntrace n1 n2 ->
+    r_term (rn_raft n0) <= r_term (rn_raft n1) /\ r_term (rn_raft n1) <= r_term (rn_raft n2) /\
+    (r_term (rn_raft n2) = r_term (rn_raft n1) -> r_vote (rn_raft n1) <> INVALID_ID ->
+     r_vote (rn_raft n2) = r_vote (rn_raft n1)).
+Proof. exact ntrace_from_new. Qed.
+Print Assumptions C06n_trace_from_new.
+
+(* 3: grants match the vote ([sel ty l] = the messages of type ty in l, in order) *)
+Theorem C06n_def_sel : forall ty l, sel ty l = filter (fun x => m_type x =? ty) l.
+Proof. exact def_sel. Qed.
+Print Assumptions C06n_def_sel.
+
+Theorem C06n_grant_matches_vote :
+  forall r m r' c, step r m = Ok (r', c) ->
+    exists new,
+      sel MsgRequestVoteResponse (r_msgs r') = sel MsgRequestVoteResponse (r_msgs r) ++ new /\
+      forall x, In x new -> m_reject x = false ->
+        m_type m = MsgRequestVote /\ m_to x = m_from m /\ r_vote r' = m_from m /\
+        m_term x = r_term r' /\ m_term x = m_term m /\ m_from x = r_id r'.
+Proof. exact grant_matches_vote. Qed.
+Print Assumptions C06n_grant_matches_vote.
+
+(* 4: the hard state hand-out and the release discipline *)
+Theorem C06n_ready_hands_out_hard_state :
+  forall n n' rd, rn_ready n = Ok (n', rd) ->
+    (r_term (rn_raft n) <> hs_term (rn_prev_hs n) \/ r_vote (rn_raft n) <> hs_vote (rn_prev_hs n)) ->
+    rd_hs rd = Some (Raft.hard_state_of (rn_raft n)) /\
+    rd_must_sync rd = true /\ rd_is_persisted_msg rd = true /\
+    (exists recs rr, rn_records n' = recs ++ [rr] /\ rr_number rr = rd_number rd /\
+                     rr_hs_changed rr = true) /\
+    r_term (rn_raft n') = r_term (rn_raft n) /\ r_vote (rn_raft n') = r_vote (rn_raft n).
+Proof. exact ready_hands_out_hard_state. Qed.
+Print Assumptions C06n_ready_hands_out_hard_state.
+
+Theorem C06n_tv_change_no_immediate_msgs :
+  forall n n' rd, rn_ready n = Ok (n', rd) ->
+    forall hs, rd_hs rd = Some hs ->
+      (hs_term hs <> hs_term (rn_prev_hs n) \/ hs_vote hs <> hs_vote (rn_prev_hs n)) ->
+      (if rd_is_persisted_msg rd then [] else lr_messages (rd_light rd)) = []
+      /\ (if rd_is_persisted_msg rd then lr_messages (rd_light rd) else []) = lr_messages (rd_light rd).
+Proof. exact tv_change_no_immediate_msgs. Qed.
+Print Assumptions C06n_tv_change_no_immediate_msgs.
+
+Theorem C06n_immediate_msgs_only_leader_settled :
+  forall n n' rd, rn_ready n = Ok (n', rd) ->
+    (if rd_is_persisted_msg rd then [] else lr_messages (rd_light rd)) <> [] ->
+    is_leader (rn_raft n) = true
+    /\ ~ (r_term (rn_raft n) <> hs_term (rn_prev_hs n) \/ r_vote (rn_raft n) <> hs_vote (rn_prev_hs n))
+    /\ exists recs, ready_records n recs /\ forall rr, In rr recs -> rr_hs_changed rr = false.
+Proof. exact immediate_msgs_only_leader_settled. Qed.
+Print Assumptions C06n_immediate_msgs_only_leader_settled.
+
+(* 5: restart *)
+Theorem C06n_raft_new_resumes :
+  forall c st sa dr r, raft_new c st sa dr = Ok (inr r) ->
+    r_term r = hs_term (MemStorage.hs st) /\ r_vote r = hs_vote (MemStorage.hs st) /\
+    r_id r = c_id c /\ r_state r = Follower /\ r_leader_id r = INVALID_ID.
+Proof. exact raft_new_resumes. Qed.
+Print Assumptions C06n_raft_new_resumes.
+
+Theorem C06n_rn_new_resumes :
+  forall c st sa dr n, rn_new c st sa dr = Ok (inr n) ->
+    r_term (rn_raft n) = hs_term (MemStorage.hs st) /\
+    r_vote (rn_raft n) = hs_vote (MemStorage.hs st) /\
+    hs_term (rn_prev_hs n) = hs_term (MemStorage.hs st) /\
+    hs_vote (rn_prev_hs n) = hs_vote (MemStorage.hs st) /\
+    r_id (rn_raft n) = c_id c /\ r_state (rn_raft n) = Follower /\ rn_records n = [].
+Proof. exact rn_new_resumes. Qed.
+Print Assumptions C06n_rn_new_resumes.
+
+(* non-vacuity: node 3 (term 2, no vote, no leader known) grants node 2 its vote for term 3
+   and then refuses node 1 in that term *)
+Example C06n_one_vote_example :
+  exists r1 c1 r2 c2 g rj,
+    step x6_r0 (x6_req 2) = Ok (r1, c1) /\ r_term r1 = 3 /\ r_vote r1 = 2 /\
+    r_msgs r1 = [g] /\ m_type g = MsgRequestVoteResponse /\ m_reject g = false /\ m_to g = 2 /\ m_term g = 3 /\
+    step r1 (x6_req 1) = Ok (r2, c2) /\ r_term r2 = 3 /\ r_vote r2 = 2 /\
+    r_msgs r2 = [g; rj] /\ m_reject rj = true /\ m_to rj = 1.
+Proof. exact x6_one_vote. Qed.
